@@ -211,4 +211,33 @@ example : pyHandle { cfg := plain, fsm := .openconfirm, conn := some { id := 1, 
 example : pyHandle { cfg := plain, fsm := .openconfirm, conn := some { id := 1, idLow := true } } = .raise 6 7 := by decide
 example : pyHandle { cfg := plain, fsm := .idle, restart := false, teardown := some 3 } = .raise 6 3 := by decide
 
+/-! ### what the trace checker guarantees of ANY trace it accepts
+
+`chkAll true g0` is run (driver op `session chk`) on the traces observed from the real `Peer` under configurations
+M-Session does not model (`local-as auto`, `peer-as auto`): the step-by-step comparison does not apply there, these
+theorems do — they speak of every accepted list of outputs, wherever it comes from. -/
+
+/-- **An accepted trace satisfies C05**: every FSM change is an RFC 4271 transition and starts from the state the
+    trace before it leads to; UPDATE, End-of-RIB and ROUTE-REFRESH are only written in ESTABLISHED, and every write
+    carries the state of that moment; between two `up` of the API there is a `down`. -/
+theorem accepted_trace_satisfies (os : List Out) (g' : G) (h : chkAll true g0 os = some g') :
+    (∀ a b, Out.fsm a b ∈ os → (a, b) ∈ rfcTable) ∧
+    (∀ c k st, Out.send c k st ∈ os → isData k = true → st = .established) ∧
+    (∀ xs ys a b, os = xs ++ Out.fsm a b :: ys → a = fsmAfter .idle xs) ∧
+    (∀ xs ys c k st, os = xs ++ Out.send c k st :: ys → st = fsmAfter .idle xs) ∧
+    (∀ xs ys zs, os = xs ++ Out.up :: ys ++ Out.up :: zs → Out.down ∈ ys) := by
+  refine ⟨accepted_fsm_rfc h, accepted_data_established h, ?_, ?_, ?_⟩
+  · intro xs ys a b e; subst e
+    exact (accepted_labels h).1 a b rfl
+  · intro xs ys c k st e; subst e
+    exact (accepted_labels h).2 c k st rfl
+  · intro xs ys zs e; subst e
+    exact accepted_up_down h
+
+-- the checker is not vacuous: it refuses a trace that reaches ESTABLISHED from OPENSENT, and one that writes an
+-- UPDATE in OPENCONFIRM
+example : chkAll true g0 [.fsm .idle .connect, .fsm .connect .opensent, .fsm .opensent .established] = none := by decide
+example : (chkAll true g0 [.fsm .idle .connect, .fsm .connect .opensent, .fsm .opensent .openconfirm,
+    .send 1 .update .openconfirm]).isNone = true := by decide
+
 end Exa.Props.C05
